@@ -55,8 +55,8 @@ def entries():
         for k, e in enumerate(corpus.plain()):
             if e.get("sqlfluff", True) and "{" not in e["sql"]:
                 out.append((e["sql"], e["dialect"]))
-                # the legacy analyzer is a dialect too ('non-validating'): the test suite's ansi statements that it supports, a seeded third
-                if e.get("sqlparse") and e["dialect"] == "ansi" and (k + _state.get("seed", 1)) % 3 == 0:
+                # the legacy analyzer is a dialect too ('non-validating'): the test suite's ansi statements that it supports
+                if e.get("sqlparse") and e["dialect"] == "ansi":
                     out.append((e["sql"], "non-validating"))
         tp = corpus.tpcds()
         if _state.get("quick"):  # the big TPC-DS scripts cost ~1 s per analysis: a seeded tenth of them in the quick tier
@@ -81,6 +81,7 @@ def generated_entries(quick, seed):
     for i, (stmt, feats) in enumerate(C01.skeletons((0, 1))):
         if i % k1 == seed % k1 and not isinstance(stmt, ir.Noop):
             out.append((ir.r_stmt(stmt), "ansi"))
+            out.append((ir.r_stmt(stmt), "non-validating"))  # the legacy analyzer on generator statements (every join spelling, nesting, set operations)
     for i, (stmt, feats) in enumerate(C02.skeletons()):
         if i % k2 == seed % k2:
             out.append((ir.r_stmt(stmt), "ansi"))
